@@ -86,10 +86,8 @@ func parseContracts(p *Prog, r *Report) {
 		}
 	}
 	if c := p.fc(r, p.Func("types.*BurnMessage.Parse"), "BurnMessage.Parse", nil); c != nil {
-		g := []Atom{A("(132 == len(p1))")}
-		c.requireCut("contract", "nil-error-implies-len==132", g, c.successReturns())
-		c.requireFailArm("contract", "nil-error-implies-len==132", g, false)
-		c.exact("contract-exact", []Atom{A("!(132 == len(p1))")})
+		rejects := c.requireEqual("contract", "nil-error-implies-len==132", "len(p1)", 132, c.successReturns())
+		c.exact("contract-exact", rejects)
 		for _, ret := range allReturns(c.fn) {
 			if p.exitKind(c.x, ret) != "error" {
 				c.teq("contract", "returns-receiver", c.term(ret.Results[0], ret), "p0", p.instrPos(ret))
@@ -127,7 +125,7 @@ func zero32Global(p *Prog, r *Report) {
 		for _, b := range fn.Blocks {
 			for _, in := range b.Instrs {
 				if call, ok := in.(*ssa.Call); ok {
-					if x.Of(call, call).String() == "copy(types.PaddedModuleAddress[12:],types.ModuleAddress)" {
+					if t := x.Of(call, call).String(); t == "copy(types.PaddedModuleAddress[12:],types.ModuleAddress)" || t == "copy(types.PaddedModuleAddress[12:32],types.ModuleAddress)" {
 						found = true
 					}
 				}
@@ -348,7 +346,7 @@ func runC02(p *Prog, r *Report, tier string) {
 	})
 	if kc := p.fc(r, p.Func("types.UsedNonceKey"), "UsedNonceKey", nil); kc != nil {
 		for _, ret := range allReturns(kc.fn) {
-			kc.teq("K-agree", "key-shape", kc.term(ret.Results[0], ret), `append(append(buf(4){[0:]=be32(p1)},buf(8){[0:]=be64(p0)}),[]byte("/"))`, p.instrPos(ret))
+			kc.teq("K-agree", "key-shape", kc.term(ret.Results[0], ret), `cat(be32(p1),be64(p0),[]byte("/"))`, p.instrPos(ret))
 		}
 	}
 	if sc := p.fc(r, p.Func("keeper.Keeper.SetUsedNonce"), "SetUsedNonce", nil); sc != nil {
